@@ -341,7 +341,9 @@ type stepCase struct {
 func stepExec(c *core.Ctx, in stepCase) {
 	var s16 [16]uint32
 	copy(s16[:], in.State)
-	bad := func(g, w any) { c.Fail("component|"+in.What, fmt.Sprintf("%s on crafted state %x: implementation %x, reference %x", in.What, in.State, g, w)) }
+	bad := func(g, w any) {
+		c.Fail("component|"+in.What, fmt.Sprintf("%s on crafted state %x: implementation %x, reference %x", in.What, in.State, g, w))
+	}
 	switch in.What {
 	case "ZUC-LFSR-step":
 		if g, w := zuc.VerifLfsrStep(s16, in.Init, in.U), refcrypto.ZucLfsrStep(s16, in.Init, in.U); g != w {
